@@ -454,6 +454,13 @@ def search(prop, lines, feat, release, budget, stats):
             body = ops[:pos] + extra + ops[pos:] + fin
         else:
             body = ops + extra + fin
+        if i % 2 == 1:
+            # directed probe for hidden-state drift: a fresh garbage self-cycle pointing at an object the program
+            # still holds — a stale mark / tracing counter on that object turns it into "garbage" of that cycle
+            k, j = rng.randrange(g.nh), rng.randrange(g.nh)
+            probe = ["drop h%d" % j, "new h%d 2 0 0 0 0 0" % j, "setf h%d f0 h%d" % (j, k), "setf h%d f1 h%d" % (j, j), "drop h%d" % j,
+                     "collect", "collect", "clone h%d h%d" % (k, j), "drop h%d" % j, "collect"]
+            body = ops + (extra if rng.random() < 0.5 else []) + probe + fin
         name = "search-%d" % i
         cands.append((name, ["program " + name] + head[1:] + body + tail))
     stats["search_programs"] += len(cands)
